@@ -17,27 +17,37 @@ func init() {
 	register(&Property{
 		ID:        "C42",
 		Patterns:  []string{".", "./sql/rowexec", "./sql/analyzer"},
-		Technique: "CFG dominance with error-edge pruning (go/cfg); sibling agreement over IsReadOnly implementations; who-may-write reachability over the type-resolved static call graph of the executor",
+		Technique: "CFG dominance with error-edge pruning (go/cfg); sibling agreement over IsReadOnly implementations; who-may-write reachability over the type-resolved static call graph of the executor; child coverage: backward access-path origin analysis (go/ssa, interprocedural, field stores) of the executor's dispatch arguments against a forward must-analysis of IsReadOnly (conjunction, early returns, for-every-element loops)",
 		Explanation: "Read-only modes block every write — structural clauses. (R1) in package sqle every call that executes a plan (ExecBuilder.Build) is dominated by Engine.readOnlyCheck of the same node, and on " +
 			"the edge where that check returned an error the execution is unreachable. (R2) wrapper propagation: a plan node whose executor executes another node (its build function, the functions it calls " +
 			"and the methods of the iterator types it constructs reach the executor's dispatch) does not answer IsReadOnly with the constant true: it delegates to the executed nodes or answers false. " +
+			"(R2c) child coverage of every non-constant IsReadOnly: the node argument of each call of the executor's dispatch reachable from the node's build function is resolved backwards (SSA: accessors, helper parameters, " +
+			"iterator fields, closures, slices, tree rewriters of sql/transform) to a child field path of the node (n.Child, n.BinaryNode.left, n.IfElse.IfConditionals[] …); IsReadOnly may return true only on paths on which, for each such " +
+			"path, IsReadOnly of that child (or of a node containing it) was called and observed true, or the child was observed nil — `&&`, early `return false`, flag variables, helper functions and loops that visit every element are read; " +
+			"a duplicated or dropped operand, `||`, a sub-slice or an any-instead-of-all loop leave the child uncovered. " +
 			"(R3) writers: a plan node whose executor code reaches a mutator of the storage interfaces (row inserters/updaters/deleters, table/index/foreign-key/check alteration, table, view, trigger, " +
 			"procedure, event and database creation or removal, statistics and account edits) does not answer IsReadOnly with the constant true. (R4) the analyzer's read-only validation rules " +
 			"(validateReadOnlyDatabase, validateReadOnlyTransaction) are registered in the validation batch and reject with the read-only errors.",
 		NotCovered: "the converse (nodes that answer false but are harmless: 'and nothing else'), writes performed by integrator-supplied nodes and table functions, session/system variable writes, " +
-			"calls through interface values other than the frozen mutator interfaces, the delegation expression of non-constant IsReadOnly implementations",
+			"calls through interface values other than the frozen mutator interfaces; R2c: the executor side is path-insensitive (a child executed only in a state in which IsReadOnly answers false is still demanded), " +
+			"nodes the executor reaches through non-plan fields (run-time references: handler statements, cursors) are listed as notes and not decided, children executed only through a dynamic call other than the dispatch methods, " +
+			"element facts nested in two loops and maps of nodes, expressions (subqueries) evaluated rather than executed",
 		Run: func(c *Ctx) {
 			runC42(c, c42Cfg{root: "", exec: "sql/rowexec", planRel: "sql/plan", sqlRel: "sql", analyzer: "sql/analyzer",
 				check: "Engine.readOnlyCheck", dispatch: "BaseBuilder.buildNodeExecNoAnalyze", dispatchers: []string{"buildNodeExec", "buildNodeExecNoAnalyze", "Build"},
-				validators: []string{"validateReadOnlyDatabase", "validateReadOnlyTransaction"}, floors: [4]int{3, 160, 160, 8}})
+				validators: []string{"validateReadOnlyDatabase", "validateReadOnlyTransaction"}, floors: [4]int{3, 160, 160, 8},
+				transformRel: "sql/transform", floorCov: 45})
 		},
 		Fixture: func(c *Ctx, fx *Prog) {
-			expectFixture(c, fx, "c42: execution without / ignoring / mismatching the read-only check, constant-true wrapper and writer, validation rule not registered",
+			expectFixture(c, fx, "c42: execution without / ignoring / mismatching the read-only check, constant-true wrapper and writer, validation rule not registered, executed child not conjoined (duplicate operand, any-instead-of-all loop, child run from an iterator field)",
 				[]string{
 					"C42-R1:Engine.RunEvent/Build(body)",
 					"C42-R1:Engine.QueryLenient/Build(analyzed)",
 					"C42-R1:Engine.QueryOther/Build(analyzed)",
 					"C42-R2:Explain",
+					"C42-R2c:Union/binary.left",
+					"C42-R2c:Any/Stmts[]",
+					"C42-R2c:Trig/Logic",
 					"C42-R3:Purge",
 					"C42-R4:validateReadOnlyTransaction",
 				},
@@ -56,6 +66,8 @@ type c42Cfg struct {
 	check, dispatch                       string
 	dispatchers, validators               []string
 	floors                                [4]int
+	transformRel                          string // package of the tree rewriters (result = rewritten copy of the node argument)
+	floorCov                              int
 }
 
 // c42Mutators: the storage-interface methods that modify data or schema. Interface (in package
@@ -203,6 +215,8 @@ func runC42(c *Ctx, cf c42Cfg) {
 		n.execs, n.mutates = r.execs, r.mutates
 	}
 	sort.Slice(nodes, func(i, j int) bool { return nodes[i].name < nodes[j].name })
+	c.Rule("C42-R2c", "child coverage: a plan node with a non-constant IsReadOnly returns true only if IsReadOnly of every child its executor executes was true (each executed child field is conjoined)", cf.floorCov)
+	c42R2c(c, cf, nodes, exec, planPk, sqlPk)
 	{
 		cnt := map[string]int{}
 		var writers, wrappers []string
